@@ -28,7 +28,6 @@ void register_rect_c()
     shape_unary_all<3, 4>(make_ops(structured<3, 4>(2)), {-2, -1, 0, 1, 3});
     shape_unary_all<4, 3>(make_ops(structured<4, 3>(2)), {-2, -1, 0, 1, 3});
   });
-  vrt::shard("rect/product/4x3.3x4", [] { product_pairs_all<4, 3, 4>(make_ops(structured<4, 3>(2)), make_ops(structured<3, 4>(2)), 0, 1); });
   vrt::shard("rect/sum/3x4", [] { sum_pairs_all<3, 4>(make_ops(structured<3, 4>(2)), 0, 1); });
   vrt::shard("rect/matvec/3x4_4x3", [] {
     matvec_all<3, 4>(make_ops(structured<3, 4>(2)), all_vectors<4>(-1, 1));
